@@ -99,6 +99,7 @@ def run(chk):
         chk.diverge({"clause": clause, "src": "default-registry"},
                     {k: ([[i["s"], i["e"]] for i in v] if k in ("a", "b") else v) for k, v in e.items() if not k.startswith("_")})
     log_bridge(chk)
+    redefined_offset_unit(chk)
     return chk.finish(
         rule="cases = reachable states of MC_C06 (registry mode, operand a, operand b, operation) executed on materialised registries "
              "in scalar and ndarray in-place form; every state is non-trivial (pool built from offset / delta / absolute / log units); "
@@ -142,6 +143,32 @@ def drive_default(chk, rng, thorough):
             chk.diverge({"clause": "delta-offset-wrong-error", "exc": type(e).__name__, "src": "default-registry"}, {"a": a, "b": b})
     chk.samples.append({"ev": "oconv", "a": "degree_Celsius", "b": "degree_Fahrenheit", "x": "100"})
     return events
+
+
+def redefined_offset_unit(chk):
+    """an offset unit defined a second time (on_redefinition = warn / ignore) is the new unit - and so is its delta counterpart: a
+    difference of two temperatures converts with the new scale, offset + delta lands on the right temperature"""
+    import logging
+    import pint
+    from fractions import Fraction as Fr
+    logging.getLogger("pint").setLevel(logging.ERROR)
+    for mode in ("warn", "ignore"):
+        chk.case(("redefined-offset-unit", mode), nontrivial=True)
+        try:
+            u = pint.UnitRegistry(["K = [Th]", "degX = 2 * K; offset: 100"], non_int_type=Fr, on_redefinition=mode)
+            # (nothing is asked of the registry before the second definition: what survives in caches across a redefinition is C13's)
+            first = Fr(8)
+            u.define("degX = 3 * K; offset: 50")
+            d = (u.Quantity(Fr(7), "degX") - u.Quantity(Fr(3), "degX"))
+            got = {"first-difference": first, "difference": d.to("K").magnitude, "delta-unit": u.Quantity(Fr(1), "delta_degX").to("K").magnitude,
+                   "offset-plus-delta": (u.Quantity(Fr(3), "degX") + u.Quantity(Fr(4), "delta_degX")).to("K").magnitude, "absolute": u.Quantity(Fr(1), "degX").to("K").magnitude}
+        except Exception as e:
+            chk.diverge({"clause": "redefined-offset-unit-raises", "exc": type(e).__name__, "mode": mode}, {})
+            continue
+        want = {"first-difference": Fr(8), "difference": Fr(12), "delta-unit": Fr(3), "offset-plus-delta": Fr(71), "absolute": Fr(53)}
+        bad = sorted(k for k in want if Fr(got[k]) != want[k])
+        if bad:
+            chk.diverge({"clause": "redefined-offset-unit", "field": bad[0], "mode": mode}, {"expected": {k: str(want[k]) for k in bad}, "observed": {k: str(got[k]) for k in bad}})
 
 
 def log_bridge(chk):
